@@ -416,6 +416,22 @@ theorem stdOp_sim_defer_fromIter {σ} (K : Kernel σ) (hK : Kernel.WellEncoded K
   have := h fuel hf
   exact ⟨this.1, this.2.1, this.2.2.1, this.2.2.2.2⟩
 
+/-- the objects the driver actually runs: `oRepeat d` and `oIntervalD` are the loops of SimInterval.lean with the bound 100000
+    that stands for "endless"; under `take(n)`, n ≤ 100000, they deliver exactly n items, complete, and stop -/
+theorem take_oRepeat (n : Nat) (d : Data) (hn : 1 ≤ n) (hle : n ≤ 100000) (w : World) (hw : Ready w) :
+    ∃ N, ∀ fuel, N ≤ fuel →
+      let w' := run fuel [subscribeOver (kTake n) (oRepeat d)] w
+      w'.status = .ok ∧ logOf w' w.users.length = (List.replicate n d).map .next ++ [.complete] ∧
+      upstreamCancelled w w' = true :=
+  take_repeat n 100000 d hn hle w hw
+
+theorem take_oIntervalD (n : Nat) (hn : 1 ≤ n) (hle : n ≤ 100000) (w : World) (hw : Ready w) :
+    ∃ N, ∀ fuel, N ≤ fuel →
+      let w' := run fuel [subscribeOver (kTake n) oIntervalD] w
+      w'.status = .ok ∧ logOf w' w.users.length = (countFrom 0 n).map .next ++ [.complete] ∧
+      upstreamCancelled w w' = true :=
+  take_interval n 100000 hn hle w hw
+
 /-- C14 for the creation functions: what a new subscriber of `stdOp K (from_iter ds)` sees does not depend on the world it
     subscribes in (how many subscriptions came before, what they did) -/
 theorem fromIter_subscribe_independent {σ} (K : Kernel σ) (hK : Kernel.WellEncoded K) (w₁ w₂ : World)
@@ -448,3 +464,5 @@ example : logOf (run 400 [Sim.subscribeOver (kTake 3) (oJust (.int 7))] {}) 0 = 
 #print axioms Rx.Sim.stdOp_sim_start
 #print axioms Rx.Sim.stdOp_sim_defer_fromIter
 #print axioms Rx.Sim.fromIter_subscribe_independent
+#print axioms Rx.Sim.take_oRepeat
+#print axioms Rx.Sim.take_oIntervalD
